@@ -210,23 +210,22 @@ void fp54_frb(fp54_t c, const fp54_t a, int i) {
 		fp18_frb(c[0], c[0], 1);
 		fp18_frb(c[1], c[1], 1);
 		fp18_frb(c[2], c[2], 1);
+		/* With w^3 = z for the generator z of Fp^18 (z^6 = E, the cubic
+		 * non-residue of Fp^3): w^(p-1) = E^((p - p mod 18)/18) * z^(2r) and
+		 * w^(2(p-1)) = E^((p - p mod 9)/9) * z^(2(2r mod 3)) for
+		 * r = (p mod 18 - 1)/6, where z^2 is the generator of Fp^9. */
+		int r = (fp_prime_get_mod18() - 1) / 6;
 		for (int j = 0; j < 2; j++) {
 			for (int l = 0; l < 3; l++) {
-				fp3_mul_frb(c[1][j][l], c[1][j][l], 2, 3);
+				fp3_mul_frb(c[1][j][l], c[1][j][l], 2, 2);
 				fp3_mul_frb(c[2][j][l], c[2][j][l], 2, 1);
 			}
-			/* This is not general enough, so hard code parameters needing the
-			tweak. */
-#if FP_PRIME == 256
-			fp9_mul_art(c[1][j], c[1][j]);
-			fp9_mul_art(c[1][j], c[1][j]);
-			fp9_mul_art(c[2][j], c[2][j]);
-#endif
-#if FP_PRIME == 446
-			fp9_mul_art(c[1][j], c[1][j]);
-			fp9_mul_art(c[2][j], c[2][j]);
-			fp9_mul_art(c[2][j], c[2][j]);
-#endif
+			for (int k = 0; k < r; k++) {
+				fp9_mul_art(c[1][j], c[1][j]);
+			}
+			for (int k = 0; k < (2 * r) % 3; k++) {
+				fp9_mul_art(c[2][j], c[2][j]);
+			}
 		}
 	}
 }
